@@ -49,7 +49,7 @@ pub fn check(tier: Tier) -> Check {
         also_rel: false,
         property: "C06",
         level: "model_checking",
-        rule: "all event sequences over publishes (QoS 0/1/2 x retain x 2 topics/payloads, and one carrying every optional PUBLISH property with a 300-byte payload), every legal PUBACK/PUBREC/PUBCOMP reason code, a ping interleaved, delayed polls of the publish future (also between the QoS 2 phases) and partial/pending writes as deviations; non-trivial = a QoS>0 handshake was completed or failed".into(),
+        rule: "all event sequences over publishes (QoS 0/1/2 x retain x 2 topics/payloads, and one carrying every optional PUBLISH property with a 300-byte payload), every legal PUBACK/PUBREC/PUBCOMP reason code, a ping interleaved, delayed polls of the publish future (also between the QoS 2 phases) and partial/pending writes as deviations; publishes issued one after the other on one long-lived handle object and on clones of it (Receive Maximum 1 / 2, Maximum Packet Size 12); value flavour (retain, every property, alias-only and $share topics); non-trivial = a QoS>0 handshake was completed or failed".into(),
         assumptions: vec!["conformant broker".into()],
         parts,
     }
